@@ -151,8 +151,9 @@ class MarkingDefinition(_STIXBase20, _MarkingsMixin):
             except KeyError:
                 raise ValueError("definition_type must be a valid marking type")
 
-            # Without 'created' the clock supplies one, with a sub-second part.
-            if 'created' not in kwargs or _should_set_millisecond(kwargs['created'], marking_type):
+            # Without 'created' (None and [] mean the same) the clock supplies
+            # one, with a sub-second part.
+            if kwargs.get('created') in (None, []) or _should_set_millisecond(kwargs['created'], marking_type):
                 self._properties = copy.deepcopy(self._properties)
                 self._properties.update([
                     ('created', TimestampProperty(default=lambda: NOW, precision='millisecond')),
